@@ -66,7 +66,7 @@ func (r *RoutingTable) verifyRoutingTable(id uint64, table map[uint64]*route) er
 		return fmt.Errorf("invalid partition count: %d", len(table))
 	}
 	for partID, data := range table {
-		if partID >= r.config.PartitionCount || data == nil {
+		if partID >= r.config.PartitionCount || data == nil || len(data.Owners) == 0 {
 			return fmt.Errorf("invalid route for partition id: %d", partID)
 		}
 	}
